@@ -102,7 +102,12 @@ func cmdCheck(args []string) int {
 	var boundedInfo map[string]interface{}
 	if id == "C12" {
 		var bo []*Obligation
-		bo, boundedInfo = eng.boundedRepair(*repo, *verif, *tier, seed)
+		bo, boundedInfo = eng.runBounded(repairHarness, *repo, *verif, *tier, seed)
+		extraObls = append(extraObls, bo...)
+	}
+	if id == "C15" {
+		var bo []*Obligation
+		bo, boundedInfo = eng.runBounded(cliHarness, *repo, *verif, *tier, seed)
 		extraObls = append(extraObls, bo...)
 	}
 	if len(work) == 0 && len(extraObls) == 0 {
@@ -292,6 +297,20 @@ func cmdCheck(args []string) int {
 	ev.Coverage["known_finding_lines"] = kfLines
 	if id == "C14" {
 		ev.Coverage["explanation"] = "reads-frame obligations decided by a def-use walk over the typed AST of every command function that calls TryCache (no SMT): each flag/positional-derived value read after the TryCache call must occur in the encodePayload tuple list, be computed only from such values, or be the input/output path or the no-cache switch. One obligation per (command, value). Typestate half: ioDelegate.Close/Commit are verified by contract (SMT) — an uncommitted entry is removed — and per command a structural obligation shows no error return is reachable after Commit."
+	}
+	if id == "C15" {
+		for k, v := range boundedInfo {
+			ev.Coverage[k] = v
+		}
+		nb := 0
+		for _, o := range all {
+			if o.Kind == "bounded" {
+				nb++
+			}
+		}
+		ev.Coverage["bounded_obligations"] = nb
+		ev.Level = "other"
+		ev.Coverage["explanation"] = "two parts: (1) proof: the library steps the commands are built from (Minimize, Invert*, BySegment, Segment, Delete/Erase/Insert/Embed/Rotate/Slice) are under contract and discharged by SMT for all inputs; (2) BOUNDED, not proved: the per-record loops of the six commands are run through the gts binary built from the current tree on every site configuration within the bound stated in /verif/bounded/cli_bounded_test.go, and the residues written are compared with what the property prescribes; obligations named main.commands/bounded:* are outcomes of that enumeration."
 	}
 	if id == "C12" {
 		for k, v := range boundedInfo {
